@@ -187,6 +187,11 @@ def build(pattern, flags=0, anchored_start=True, open_tail=True):
                     raise Unsupported('multiline $')
                 q2 = nfa.new()
                 nfa.eps[q].append((q2, True))
+                if an == 'AT_END':
+                    # `$` also matches just before a newline that ends the string
+                    q3 = nfa.new()
+                    nfa.trans[q].append((frozenset({10}), q3))
+                    nfa.eps[q3].append((q2, True))
                 return q2
             raise Unsupported(an)
         raise Unsupported(name)
